@@ -970,6 +970,25 @@ def run(ctx):
         w = [rng.randrange(1, 33) / 8.0 for _ in pts] if rng.random() < 0.6 else None
         z = [rng.choice([0.2, 0.3, 0.7]) for _ in pts]
         mode = rng.choice(["centers", "centers", "name", "create", "catalog"]) if len(pts) >= 12 else rng.choice(["centers", "name", "catalog"])
+        wprofile = "positive" if w is not None else "none"
+        if w is not None and mode in ("centers", "catalog") and rng.random() < 0.5:
+            # with given centres any finite weights are legal: zeros, a fully masked patch, signed weights that cancel
+            wprofile = rng.choice(["some-zero", "patch-all-zero", "signed-cancelling", "all-zero"])
+            masked = rng.randrange(ncent)
+            if wprofile == "some-zero":
+                w = [0.0 if rng.random() < 0.4 else x for x in w]
+            elif wprofile == "patch-all-zero":
+                w = [0.0 if near[i] == masked else x for i, x in enumerate(w)]
+            elif wprofile == "all-zero":
+                w = [0.0 for _ in w]
+            else:
+                w = [x if i % 2 == 0 else -x for i, x in enumerate(w)]
+                for k in range(ncent):       # make every patch of even size cancel exactly
+                    idx = [i for i in range(len(pts)) if near[i] == k]
+                    if len(idx) >= 2 and len(idx) % 2 == 0:
+                        for a, b in zip(idx[0::2], idx[1::2]):
+                            w[b] = -w[a]
+        ctx.bump("weights:%s" % wprofile)
         centers = impl.AngularCoordinates(np.deg2rad(np.asarray(cents)))
         try:
             if mode == "centers":
@@ -992,6 +1011,8 @@ def run(ctx):
                 continue
             raise
         meta_terms(ctx, cat, cid, terms, metas, mode=mode)
+        # the second public view of the same catalog: restored from its cache directory
+        meta_terms(ctx, impl.Catalog(cat.cache_directory), (cid, "reopened"), terms, metas, mode=mode + "/reopened")
         keys = list(cat.keys())
         if given is not None:
             got = cat.get_centers()
